@@ -1,10 +1,7 @@
 import Gaftools.Props.C09b
-import Gaftools.Props.TieA2
 #print axioms Gaftools.C09.process_eq_spec
 #print axioms Gaftools.C09.sort_output_perm
 #print axioms Gaftools.C09.sort_output_suffix
 #print axioms Gaftools.C09.specFile_model
 #print axioms Gaftools.C09.sortLines_perm
 #print axioms Gaftools.C09.alns_offsets
-#print axioms Gaftools.TieA.processAlignment_gen
-#print axioms Gaftools.TieA.sortNode_gen
